@@ -1271,11 +1271,14 @@ class MultiCouplingTerms(CouplingTerms):
                 continue
             switchLR, op_switch, shift, strength = c
             term = []
-            op_str = ''
             if tL is not None:
                 for i, op_i, op_str in tL:
                     term.append((op_i, i))
-            if op_switch != op_str:
+            # If the site `switchLR` lies *between* two sites of the term, `op_switch` is just the operator
+            # string, which then also is the string right of `tL[-1]` and left of `tR[-1]`.
+            # Otherwise it is an operator of the term, even if it has the same name as the operator string.
+            only_op_string = bool(tL) and bool(tR) and op_switch == tL[-1][2] == tR[-1][2]
+            if not only_op_string:
                 term.append((op_switch, switchLR))
             if tR is not None:
                 for i, op_i, op_str in reversed(tR):
